@@ -682,7 +682,7 @@ func openFromZipReader(zipReader *zip.Reader, filename string) (*Document, error
 //	if err != nil {
 //		log.Fatal(err)
 //	}
-func (d *Document) Save(filename string) error {
+func (d *Document) Save(filename string) (err error) {
 	Infof("正在保存文档: %s", filename)
 
 	// 确保目录存在
@@ -698,11 +698,23 @@ func (d *Document) Save(filename string) error {
 		Errorf("无法创建文件: %s", filename)
 		return WrapErrorWithContext("create_file", err, filename)
 	}
-	defer file.Close()
+	// 关闭文件时的错误（例如缓冲数据无法落盘）必须返回给调用者
+	defer func() {
+		if cerr := file.Close(); cerr != nil && err == nil {
+			Errorf("无法关闭文件: %s", filename)
+			err = WrapErrorWithContext("close_file", cerr, filename)
+		}
+	}()
 
 	// 创建ZIP写入器
 	zipWriter := zip.NewWriter(file)
-	defer zipWriter.Close()
+	// ZIP写入器在关闭时才刷新缓冲区并写入中央目录，其错误同样不能丢弃
+	defer func() {
+		if cerr := zipWriter.Close(); cerr != nil && err == nil {
+			Errorf("无法完成ZIP写入: %s", filename)
+			err = WrapErrorWithContext("close_zip", cerr, filename)
+		}
+	}()
 
 	// 序列化主文档
 	if err := d.serializeDocument(); err != nil {
